@@ -86,6 +86,18 @@ size_t HashBdh::getSize() {
   return mem;
 }
 
+void HashBdh::save(std::ostream &fp) {
+  // load() keeps only the n used offsets: expand them to one per table cell
+  LogSequence full(hash->getNumbits(), tsize);
+  for (size_t i = 1; i <= n; i++)
+    full.setField(b_ht->select1(i), hash->getField(i - 1));
+
+  saveValue(fp, tsize);
+  saveValue(fp, n);
+  full.save(fp);
+  b_ht->save(fp);
+}
+
 HashBdh *HashBdh::load(std::istream &fp) {
   HashBdh *h_new = new HashBdh();
 
